@@ -11,7 +11,8 @@ with the reference tables of the LHA header format held here (DESIGN Appendix B)
  R6 OS-9 -> Unix permission mapping as a bit matrix (E4);
  R7 DOS date/time bit-fields feeding mktime (E4);
  R8 level-0 Unix / OS-9 extended areas: guards and field offsets.
-Not decided: name normalisation, mktime's arithmetic, data position (runtime values).
+R9 all-caps folding: fold stores only after both strings scanned clean; DOS-like OS types only.
+Not decided: separator normalisation (see C11), mktime's arithmetic, data position (runtime values).
 """
 from ..context import Context
 from ..report import Report
@@ -184,6 +185,25 @@ def run(tier, seed):
                 return None
             return base_is, symf
 
+        # components of the header reader that have rules of their own (R3-R5, R8, C12): their stores are not part of a level's field table
+        COMPONENTS = {"extend_raw_data", "decode_extended_headers", "read_l1_extended_headers", "read_next_ext_header", "process_level0_path",
+                      "process_level0_extended_area", "process_level0_unix_area", "process_level0_os9_area", "lha_ext_header_decode", "decode_ftime",
+                      "check_l0_checksum", "decode_level0_header"}
+
+        def effects_with_helpers(fn, depth=0):
+            """field effects of fn plus those of private helpers that receive fn's header argument unchanged (e.g. a shared 'base fields' helper)"""
+            got = field_effects(fn, *mk_base(fn))
+            M = Matcher(fn)
+            for c in fn.insts():
+                if c.op != "call" or not c.callee or c.callee not in mod.functions:
+                    continue
+                h = mod.functions[c.callee]
+                if h.decl or not h.internal or h.cname in COMPONENTS or depth >= 2 or not c.ops or not h.params:
+                    continue
+                if M.match(("param", 0), c.ops[0], {}) is not None and h.params[0].ty == fn.params[0].ty:
+                    got += effects_with_helpers(h, depth + 1)
+            return got
+
         rid = rep.rule("R2", "level decoders fill each header field from the reference (width @ offset) of the raw header", 20)
         common = {
             "compress_method": {("copy5", "raw", L(2)), ("const[5]", None, 0)},
@@ -199,8 +219,7 @@ def run(tier, seed):
             fn = rep.need(rid, mod.fn(name), "function " + name)
             if not fn:
                 continue
-            base_is, symf = mk_base(fn)
-            got = field_effects(fn, base_is, symf)
+            got = effects_with_helpers(fn)
             # the NUL terminator store goes to compress_method[5]: appears as const 0 on the field
             compare_effects(rep, rid, fn, got, ref)
         l0 = mod.fn("decode_level0_header")
@@ -522,4 +541,93 @@ def run(tier, seed):
                               function=ea.cname, obj=cal)
                     rep.check(rid, all(M.match(("param", k), c.ops[k], {}) is not None for k in range(3)), "%s receives (header, data, data_len) unchanged" % cal, c.where(), None,
                               function=ea.cname, obj=cal + ":args")
+
+        # ---- R9 all-caps folding -------------------------------------------------------------------------------------------------------
+        rid = rep.rule("R9", "all-caps folding: a byte of path/filename is replaced by tolower() only for DOS-like OS types and only after *both* strings were "
+                             "scanned to their terminator (or are NULL) without meeting a lower-case letter; when enabled, both strings are folded to the end", 8)
+        from ..paths import PathStates, holds, refuted, show
+        imod = ctx.inlined("header")
+        hf = rep.need(rid, imod.fn("lha_file_header_read"), "function lha_file_header_read (inlined header unit)")
+        if hf:
+            F = ctx.facts(hf)
+            M = Matcher(hf)
+            HD = "LHAFileHeader"
+            def strbyte(fld):
+                return ("load", ("gep", ("load", ("field", HD, fld, ANY)), [ANY]))
+            folds = {}
+            for st in hf.insts():
+                if st.op != "store":
+                    continue
+                for fld in ("path", "filename"):
+                    if M.match(("gep", ("load", ("field", HD, fld, ANY)), [ANY]), st.ops[1], {}) is None:
+                        continue
+                    srcs = [x for x, _ in F.sources(st.ops[0])]
+                    if srcs and all(M.match(("load", ("gep", ("load", ("call", "__ctype_tolower_loc", [])), [ANY])), x, {}) is not None for x in srcs):
+                        folds.setdefault(fld, []).append(st)
+            rep.check(rid, set(folds) == {"path", "filename"}, "fold stores found for path and filename", hf.file, "found for %s" % sorted(folds), function=hf.cname, obj="fold-sites")
+            lower_pat = ("ne", ("bin", "and", ("load", ("gep", ("load", ("call", "__ctype_b_loc", [])), [ANY])), 512), 0)
+            tracked = {"path_null": ("eq", ("load", ("field", HD, "path", ANY)), 0), "name_null": ("eq", ("load", ("field", HD, "filename", ANY)), 0),
+                       "path_end": ("eq", strbyte("path"), 0), "name_end": ("eq", strbyte("filename"), 0), "lower": lower_pat}
+            # region: from the nearest common dominator of all scan tests and fold stores
+            lab_blocks = {st.block.id for v in folds.values() for st in v}
+            ps0 = PathStates(hf, F, {"lower": lower_pat}, within=set())
+            scan_edges = ps0.labelled_edges({"lower"})
+            lab_blocks |= {b for b, _ in scan_edges}
+            rep.check(rid, len(scan_edges) >= 4, "lower-case tests (islower) found in the scans", hf.file, "%d labelled edges" % len(scan_edges), function=hf.cname, obj="scan-sites")
+            if len(folds) == 2 and scan_edges:
+                dom = None
+                for b in hf.blocks:
+                    if all(hf.dominates(b.id, x) for x in lab_blocks) and (dom is None or hf.dominates(dom, b.id)):
+                        dom = b.id
+                region = {b.id for b in hf.blocks if hf.dominates(dom, b.id)}
+                ps = PathStates(hf, F, tracked, correlate=True, start=dom, within=region, cap=4096)
+                loops = hf.loops()
+                fold_blocks = {st.block.id for v in folds.values() for st in v}
+                scan_loops = [lp for lp in loops if any(b in lp["body"] for b, _ in scan_edges) and not (set(lp["body"]) & fold_blocks)]
+                fold_loops = [lp for lp in loops if set(lp["body"]) & fold_blocks]
+                def inst_in(iid, lps):
+                    d = hf.defn(("v", iid))
+                    return d is not None and not d.is_param and any(d.block.id in lp["body"] for lp in lps)
+                def done(state, nul, end, lps):
+                    return holds(state, nul) or any(n == end and pol and inst_in(i, lps) for n, pol, i in state)
+                def found_lower(state):
+                    return any(n == "lower" and pol for n, pol, _ in state)
+                rep.check(rid, not ps.overflow, "path-state enumeration complete", hf.file, None, function=hf.cname, obj="states")
+                for fld, sts in sorted(folds.items()):
+                    for st in sts:
+                        bad = [x for x in ps.at_block(st.block.id) if found_lower(x) or not done(x, "path_null", "path_end", scan_loops) or not done(x, "name_null", "name_end", scan_loops)]
+                        rep.check(rid, not bad and bool(ps.at_block(st.block.id)), "%s byte folded only after both scans completed without a lower-case letter" % fld, st.where(),
+                                  "states: %s" % show(ps.at_block(st.block.id))[:3] if not bad else "reachable in state %s" % show(bad)[:2], function="fix_msdos_allcaps", obj="fold-" + fld)
+                # completeness: leaving the region after clean complete scans implies both folds ran to the end
+                exits = [(b, t) for b in region for t in hf.blocks[b].succs if t not in region]
+                nbad = []
+                for b, t in exits:
+                    for x in ps.on_edge(b, t):
+                        clean = not found_lower(x) and done(x, "path_null", "path_end", scan_loops) and done(x, "name_null", "name_end", scan_loops)
+                        if clean and not (done(x, "path_null", "path_end", fold_loops) and done(x, "name_null", "name_end", fold_loops)):
+                            nbad.append(x)
+                rep.check(rid, not nbad and bool(exits), "after clean scans both strings are folded up to their terminator", hf.file, "state %s" % show(nbad)[:2] if nbad else None,
+                          function="fix_msdos_allcaps", obj="fold-complete")
+                # the scans read every byte: the scan loops step by one from index 0
+                for lp in scan_loops + fold_loops:
+                    hdr = hf.blocks[lp["header"]]
+                    phis = [i for i in hdr.insts if i.op == "phi"]
+                    ok = any(all((is_const(v) and const_val(v) == 0) if pb not in lp["body"] else M.match(("bin", "add", ("inst", ph.id), 1), v, {}) is not None for v, pb in ph.incoming)
+                             for ph in phis)
+                    rep.check(rid, ok, "string loop runs over indices 0, 1, 2, ...", "%s:%s" % (hf.file, hdr.term.line()), None, function="fix_msdos_allcaps", obj="index-%d" % lp["header"])
+                # DOS-like OS types only
+                ost = ("load", ("field", HD, "os_type", ANY))
+                DOSLIKE = {0: "unknown", 0x4d: "MS-DOS", 0x61: "Atari", 0x20: "LHARK", 0x32: "OS/2"}
+                cut = set()
+                for c in DOSLIKE:
+                    cut |= F.edges_with_fact(("eq", ost, c))
+                rep.check(rid, bool(cut) and not F.reaches_avoiding(0, dom, cut), "folding is entered only for os_type in %s" % sorted(DOSLIKE.values()), "%s:%s" % (hf.file, hf.blocks[dom].term.line()),
+                          None, function=hf.cname, obj="os-types")
+                others = set()
+                for b in hf.blocks:
+                    for t in b.succs:
+                        for f in F.edge_facts(b.id, t):
+                            if f[0] == "eq" and is_const(f[2]) and M.match(ost, f[1], {}) is not None and hf.dominates(t, dom) and const_val(f[2]) not in DOSLIKE:
+                                others.add(const_val(f[2]))
+                rep.check(rid, not others, "no other os_type value enables folding", hf.file, "also %s" % sorted(others) if others else None, function=hf.cname, obj="os-types-only")
     return rep.finish(seed)
